@@ -1584,6 +1584,7 @@ package common
 //@   assigns ghost(n_set_prevjust), ghost(set_prevjust), ghost(n_set_curjust), ghost(set_curjust), ghost(n_set_fin), ghost(set_fin), ghost(n_set_jbits), ghost(set_jbits)
 //@   assigns ghost(n_viter), ghost(viter_pos), ghost(viter_reg), ghost(n_val_write), ghost(n_wd_write), ghost(n_set_exit), ghost(set_exit_v), ghost(set_exit_val), ghost(n_set_wd), ghost(set_wd_v), ghost(set_wd_val)
 //@   assigns ghost(n_fork_view), ghost(last_fork_view)
+//@   assigns ghost(n_dhdr_view), ghost(last_dhdr_view)
 
 //@ func StateTransition(ctx, spec, epc, state, benv, validateResult) err
 //@   property C18
@@ -1618,6 +1619,7 @@ package common
 //@   assigns ghost(n_viter), ghost(viter_pos), ghost(viter_reg), ghost(n_val_write), ghost(n_wd_write), ghost(n_set_exit), ghost(set_exit_v), ghost(set_exit_val), ghost(n_set_wd), ghost(set_wd_v), ghost(set_wd_val)
 //@   assigns ghost(n_inc_depidx), ghost(n_add_val), ghost(add_val_pub), ghost(add_val_creds), ghost(add_val_bal)
 //@   assigns ghost(n_fork_view), ghost(last_fork_view)
+//@   assigns ghost(n_dhdr_view), ghost(last_dhdr_view)
 
 //@ func PostSlotTransition(ctx, spec, epc, state, benv, validateResult) err
 //@   property C18 C03
